@@ -19,7 +19,7 @@ ASSUMPTIONS = ['float32 logits compared within 2e-4 relative to the largest |log
 N = {'quick': 40, 'thorough': 3000}
 CLASSES = ['default', 'deep', 'wide', 'eos_early', 'never_ends', 'single_head', 'run_ocr', 'default']
 REQUIRED = ['batches', 'cached_vs_uncached', 'cached_vs_teacher_forced', 'fresh_vs_history', 'single_vs_batch_lines', 'cache_calls_checked', 'cross_attention_cache_checked',
-            'batches_after_different_batch', 'lines_hit_length_cap', 'lines_ended', 'run_ocr_batches']
+            'batches_after_different_batch', 'lines_hit_length_cap', 'lines_ended', 'run_ocr_batches', 'run_ocr_history_batches']
 SHARDS = {'quick': 8, 'thorough': 16}
 TIMEOUT = {'quick': 1200, 'thorough': 10800}
 TOL_REL = 2e-4      # relative to the largest |logit| of the batch (float32 round-off through layer norms / softmax over up to 65 steps: the largest
@@ -77,6 +77,8 @@ def gen(rng, i, ctx):
         eos = -6.0
     elif cls == 'single_head':
         heads = 1
+    if cls == 'run_ocr':
+        eos = 3.0
     batches = []
     nb = int(rng.integers(3, 5))
     for b in range(nb):
@@ -85,6 +87,11 @@ def gen(rng, i, ctx):
         if b > 0 and rng.random() < 0.35:
             n, w = batches[-1]['n'], batches[-1]['w']        # same shape as the previous batch: stale rows line up exactly
         batches.append({'n': n, 'w': w, 'seed': int(rng.integers(0, 1 << 30))})
+    if cls == 'run_ocr':
+        n0 = int(rng.integers(1, 4))
+        ws = sorted([int(rng.choice([64, 96, 128, 192, 256, 300])) for _ in batches], reverse=True)
+        for b_, w_ in zip(batches, ws):
+            b_['n'], b_['w'] = n0, w_ // 4 * 4
     return {'cls': cls, 'model_seed': int(rng.integers(0, 1 << 30)), 'dim': dim, 'heads': heads, 'dec': dec, 'eos_bias': eos, 'batches': batches}
 
 
@@ -195,6 +202,19 @@ def check(case, mon, ctx):
                 mon.violation('transcription-is-the-arg-max-path', dict(w, line=k, transcription=t, argmax_path=path))
             if amb[k] >= steps and lim >= steps and o2[k].tolist() != t:
                 mon.violation('cached-equals-recomputation', dict(w, line=k, cached=t, uncached=o2[k].tolist()))
+        if case['cls'] == 'run_ocr':
+            # history through run_ocr (pads every batch to 1088 px): this batch on the long-lived engine vs on a freshly loaded copy
+            lines_h = np.ascontiguousarray(np.transpose(x, (0, 2, 3, 1)))
+            with torch.no_grad(), contextlib.redirect_stdout(io.StringIO()):
+                dec_h, lg_h = eng.run_ocr(lines_h.copy())
+                e3 = ctx.stubs.make_transformer_engine(ctx.tmpdir + '/teng_fresh', case['model_seed'], H=32, dim=case['dim'], heads=case['heads'], dff=2 * case['dim'], enc=1, dec=case['dec'], eos_bias=case['eos_bias'])
+                dec_f, lg_f = e3.run_ocr(lines_h.copy())
+            mon.count('run_ocr_history_batches')
+            nst = min(lg_h.shape[1], lg_f.shape[1], min(first_ambiguous_step(torch.from_numpy(lg_f))))
+            dd = float(np.abs(lg_h[:, :nst] - lg_f[:, :nst]).max(initial=0))
+            if dd > TOL_REL * max(5.0, float(np.abs(lg_f).max(initial=0))):
+                mon.violation('independent-of-earlier-batches', dict(w, via='run_ocr on a long-lived engine vs a freshly loaded engine', max_abs_diff=dd, steps_compared=nst,
+                              previous_batches=[(q['n'], q['w']) for q in case['batches'][:bi]]))
         if case['cls'] == 'run_ocr' and bi == 0:
             lines = np.ascontiguousarray(np.transpose(x, (0, 2, 3, 1)))
             with torch.no_grad(), contextlib.redirect_stdout(io.StringIO()):
